@@ -82,7 +82,7 @@ func FromString[T fixed.Dx](str string) (Int[T], error) {
 	var neg bool
 	var err error
 	switch parts[0] {
-	case "":
+	case "", "+":
 	case "-", "-0":
 		neg = true
 	default:
